@@ -220,4 +220,18 @@ func init() {
 	c05ref.Duel = false
 	c05ref.Executors = []string{"default", "queued", "queued"}
 	Props["C05"].Engines = append(Props["C05"].Engines, &concEngine{opts: &c05ref})
+	// C18 (cache level, concurrent): every displacement of a main-region entry is judged at the
+	// moment it happens, against the estimates the eviction loop looked up (conc_admit.go), while
+	// other tasks write, read and invalidate.
+	c18 := &ConcOpts{
+		Admission: true,
+		Profile:   Profile{Prop: "C18", NoExp: true, NoRef: true, BoundOnly: true, MidBound: true, Keys: [2]int{6, 24}},
+		OpW: zeroExcept(map[string]int{"set": 30, "get": 40, "setifabsent": 4, "compute": 4, "computeifabsent": 3, "invalidate": 12, "getentry": 3,
+			"setmax": 5, "load": 2}),
+		Tasks: [2]int{2, 4}, OpsPer: [2]int{8, 40}, Prefill: [2]int{4, 30},
+		Executors:  []string{"default", "sync", "queued"},
+		NonTrivial: func(o *ConcOutcome) bool { return o.Probes["admission-decisions-checked"] > 0 },
+	}
+	Props["C18"].Engines = append(Props["C18"].Engines, &concEngine{opts: c18})
+	Props["C18"].Conc = c18
 }
